@@ -93,7 +93,7 @@ def run(rep, tier, seed, replay=None):
         H.block_k(rep, 'C05', binp, seed + 550, 2400 if escalate else 600, p_absolute=0, p_hidden=300)
     # ---- K4: the flex resumption (Model/FlexAlg.v) vs the event trace of compute_flexbox_layout, + the NS witness on the implementation
     if not replay:
-        FA.flexalg_k(rep, 'C05', binp, seed + 5050, 1500 if escalate else 400)
+        FA.flexalg_k(rep, 'C05', binp, seed + 5050, 1500 if escalate else 400, payload_is_broken=False)
         FA.ns_witness(rep, 'C05', binp)
     for t in THEOREMS:
         rep.cov['samples'].append({'theorem': t})
